@@ -191,7 +191,7 @@ func (e *Engine) setupCtx() {
 const (
 	unixToInternal int64 = (1969*365 + 1969/4 - 1969/100 + 1969/400) * 86400
 	clockBaseUnix  int64 = 1767225600 // 2026-01-01T00:00:00Z
-	maxTimerFires        = 64
+	maxTimerFires        = 2000
 )
 
 type timerObj struct {
@@ -304,14 +304,18 @@ func (e *Engine) setupTime() {
 		if d.Const {
 			dn := sext(d.V, 64)
 			if dn > 0 {
-				// other threads may run while this one sleeps
-				wake := e.clock + dn
+				// the sleeper wakes through the timer queue, so timers that are due
+				// earlier (context deadlines, tickers) fire first
+				t := &timerObj{at: e.clock + dn, native: func() {}}
+				e.timers = append(e.timers, t)
 				if len(e.threads) > 1 {
-					t := &timerObj{at: wake, native: func() {}}
-					e.timers = append(e.timers, t)
 					e.block(func() bool { return t.fired }, "time.Sleep")
 				} else {
-					e.clock = wake
+					for !t.fired {
+						if !e.fireTimer() {
+							e.end("truncated", "timer budget exhausted inside time.Sleep")
+						}
+					}
 				}
 			}
 		}
